@@ -75,7 +75,7 @@ def report(chk, pid, bad, tags, backend):
 
 
 def run(chk: core.Check, pid: str, backend: str | None = None, quick_models: int = 400, thorough_models: int = 6000,
-        layout: bool = False):
+        layout: bool = False, layout_only=None):
     prof = PROFILE[pid]
     backend = backend or prof["backend"]
     recs = []
@@ -117,6 +117,14 @@ def run(chk: core.Check, pid: str, backend: str | None = None, quick_models: int
         rest = [k for k in keys if k not in set(rare)]
         keys = sorted(rare + rnd.sample(rest, min(len(rest), cap - len(rare))))
     recs = [uniq[k] for k in keys]
+    # every third model under a consistent renaming of its identifiers (names are arbitrary: leading underscores,
+    # capitals, digits, names that differ only in case from another one)
+    renamed = 0
+    for j, r in enumerate(recs):
+        if j % 3 == 1 and all(isinstance(c["expect"], dict) and "states" in c["input"] for c in r.get("cases", [])):
+            recs[j] = modelcase.rename_rec(r, modelcase.RENAMINGS[(j // 3) % len(modelcase.RENAMINGS)])
+            renamed += 1
+    chk.extra.setdefault("renamed_models", []).append(renamed)
     workdir = str(tlc.scratch_root())
     stats, bad = modelcase.replay_model_cases(recs, backend, chk.nproc, remove_unused=prof["ru"], workdir=workdir,
                                               schemes=prof["schemes"])
@@ -130,6 +138,8 @@ def run(chk: core.Check, pid: str, backend: str | None = None, quick_models: int
         lst, lbad = layoutcase.replay(lrecs, backend, chk.nproc, chk.seed, workdir)
         chk.extra.setdefault("layout_cases", []).append({"backend": backend, **lst, "mismatch_records": len(lbad)})
         for b in lbad:
+            if layout_only is not None and not layout_only(b):
+                continue
             sig = f"{pid}:{backend}:{b['tag']}:{b.get('kind', b.get('fn', ''))}:model={model_sig(b.get('text', ''))}"
             chk.violation(sig, b, f"{backend} {b['tag']}: " + str({k: v for k, v in b.items() if k not in ('text', 'tag', 'backend')})[:260])
     chk.sample({"model_text": modelcase.render_text(recs[0]["blocks"]), "input": recs[0]["cases"][0]["input"],
